@@ -73,8 +73,8 @@ def run_index(check, seed, idx):
         rng = random.Random(s)
         profile = spec["profiles"][idx % len(spec["profiles"])]
         w, knobs, steps, vid = swarm(rng, profile)
-        if check == "C15" and idx % 10 == 0:
-            steps = rng.randint(300, 1200)      # process-lifetime runs
+        if check == "C15" and idx % 10 == 0 and knobs.get("len", (0, 6))[1] < 100:
+            steps = rng.randint(300, 1200)      # process-lifetime runs (never combined with 1000-element vectors)
         if spec.get("gen") == "names":
             from oracles.c17 import NamesGen
             gen = NamesGen(rng, w, knobs)
